@@ -776,7 +776,11 @@
            ((not to)
             (reverse (cons `(* ,sre) res)))
            ((= from to)
-            (reverse (cons sre (cdr res))))
+            (if (zero? from)
+                ;; zero repetitions match only the empty string, but
+                ;; keep the submatches of sre numbered
+                `(: (? (or) ,sre))
+                (reverse (cons sre (cdr res)))))
            (else
             (let lp ((i (+ i 1)) (res res))
               (if (>= i to)
